@@ -140,6 +140,7 @@ type SinkAnalysis struct {
 	sanitisers  map[*ssa.Function]bool
 	constRet    map[*ssa.Function][]string
 	constRetSet map[*ssa.Function]bool
+	paramBusy   map[*ssa.Parameter]bool // cycle guard of paramFromCallSites
 }
 
 func (w *World) Sinks() *SinkAnalysis {
@@ -314,6 +315,10 @@ func (sa *SinkAnalysis) classify(v ssa.Value, seen map[ssa.Value]bool, depth int
 		return sa.classifyLoad(x, seen, depth)
 	case *ssa.Parameter:
 		if d, ok := sa.env[x]; ok {
+			return d
+		}
+		// a parameter of an unexported helper that is only ever called directly: the join of what its call sites pass
+		if d, ok := sa.paramFromCallSites(x, seen, depth); ok {
 			return d
 		}
 		return Data{Kind: DTainted, Why: "parameter " + x.Name()}
@@ -1032,4 +1037,69 @@ func (lr *LexRun) step(fn *ssa.Function, ins ssa.Instruction, st LexState, ctx L
 func isAttributeType(t types.Type) bool {
 	s := typeShort(t)
 	return s == "ast.Attribute" || s == "parser.Attribute"
+}
+
+// paramFromCallSites classifies a parameter of an unexported module function (or method) by its arguments at every
+// static call site in the module; not applicable when the function is exported, used as a value (address taken), or
+// has no call site.
+func (sa *SinkAnalysis) paramFromCallSites(p *ssa.Parameter, seen map[ssa.Value]bool, depth int) (Data, bool) {
+	fn := p.Parent()
+	if fn == nil || depth > 12 || !sa.w.InModule(fn) || fn.Parent() != nil {
+		return Data{}, false
+	}
+	if obj := fn.Object(); obj == nil || obj.Exported() {
+		return Data{}, false
+	}
+	if sa.paramBusy == nil {
+		sa.paramBusy = map[*ssa.Parameter]bool{}
+	}
+	if sa.paramBusy[p] {
+		return Data{}, false
+	}
+	sa.paramBusy[p] = true
+	defer delete(sa.paramBusy, p)
+	idx := paramIndex(fn, p)
+	var out Data
+	n := 0
+	for _, caller := range sa.w.CG().In[fn] {
+		if !sa.w.InModule(caller) {
+			return Data{}, false
+		}
+		for _, b := range caller.Blocks {
+			for _, ins := range b.Instrs {
+				switch x := ins.(type) {
+				case ssa.CallInstruction:
+					if x.Common().StaticCallee() != fn {
+						// the function used as a value somewhere in this caller?
+						for _, a := range x.Common().Args {
+							for _, f := range funcValues(a) {
+								if f == fn {
+									return Data{}, false
+								}
+							}
+						}
+						continue
+					}
+					if idx >= len(x.Common().Args) {
+						return Data{}, false
+					}
+					d := sa.classify(x.Common().Args[idx], map[ssa.Value]bool{}, depth+1)
+					if n == 0 {
+						out = d
+					} else {
+						out = joinData(out, d)
+					}
+					n++
+				case *ssa.MakeClosure:
+					if x.Fn == ssa.Value(fn) {
+						return Data{}, false
+					}
+				}
+			}
+		}
+	}
+	if n == 0 {
+		return Data{}, false
+	}
+	return out, true
 }
